@@ -45,6 +45,7 @@ func genPool(e *Env, stream string, n int, tweak func(i int, o *GenOpts)) []*Pro
 		}
 		g := GenProgram(fmt.Sprintf("%s%04d", stream, i), r, o)
 		g.P.AliasImports = i%3 == 1
+		g.P.GeneratedHeader = i%7 == 3
 		if len(g.P.Pkgs) > 1 {
 			// blank imports of packages the generated code also has to name: in an ordinary file
 			// of the injector's package, or in the injector file itself
